@@ -5,6 +5,9 @@
  * Keys are boxed integers: for every key VALUE there are `no` distinct key
  * OBJECTS (separate vrt_alloc blocks) and `no` distinct value objects, so
  * "the stored key/value pointers stay untouched" is observable by address.
+ * A share of the entries is inserted with a NULL value pointer (legal: the
+ * value is an opaque void *); the model then stores NULL as the value pointer
+ * and every report (insert-existing, find, erase, clear callback) must show it.
  *
  * Oracles (after every call):
  *   - reference model  value -> (stored key pointer, stored value pointer,
@@ -37,6 +40,7 @@
 
 #define MAXV 4096
 #define MAXO 3
+#define VO_NULL 3               /* value-object index meaning "the value pointer is NULL" (legal: val is opaque) */
 #define KMAGIC 0x4b455921u
 #define VMAGIC 0x56414c21u
 
@@ -45,7 +49,7 @@ struct vobj { uint32_t magic; int val, obj, stored; uint64_t pad; };
 
 struct ment {
     struct kobj *k;             /* stored key pointer, NULL = value absent */
-    struct vobj *v;             /* stored value pointer */
+    struct vobj *v;             /* stored value pointer; may be NULL while the value is present */
     void *blk;                  /* library block allocated by the insert */
     const void *handed_k;       /* clear bookkeeping: key pointer handed over (never dereferenced) */
     int handed;
@@ -86,7 +90,9 @@ static struct kobj *getk(int v, int o)
 }
 static struct vobj *getv(int v, int o)
 {
-    struct vobj *x = V[v][o];
+    struct vobj *x;
+    if (o == VO_NULL) return NULL;
+    x = V[v][o];
     if (x == NULL) {
         x = vrt_alloc(sizeof(*x));
         memset(x, 0x56, sizeof(*x));
@@ -101,11 +107,13 @@ static void release_objs(int v)
     struct kobj *k = M[v].k;
     struct vobj *x = M[v].v;
     K[v][k->obj] = NULL;
-    V[v][x->obj] = NULL;
     memset(k, 0xa5, sizeof(*k));
     vrt_free(k);
-    memset(x, 0xa5, sizeof(*x));
-    vrt_free(x);
+    if (x != NULL) {            /* entries may carry a NULL value pointer */
+        V[v][x->obj] = NULL;
+        memset(x, 0xa5, sizeof(*x));
+        vrt_free(x);
+    }
     M[v].k = NULL; M[v].v = NULL;
 }
 
@@ -243,6 +251,7 @@ static void check_find(int v, int po, const char *ctx, cstl_map_iterator_t *out)
                   v, i.val, (void *)M[v].v);
         VRT_COUNT("op.find.present");
         if (M[v].k != k) VRT_COUNT("op.find.present.other-key-object");
+        if (M[v].v == NULL) VRT_COUNT("op.find.present.null-value");
     } else {
         is_end(&i, ctx, v);
         VRT_COUNT("op.find.absent");
@@ -292,6 +301,8 @@ static void do_insert(int v, int ko, int vo, int with_it, cstl_map_iterator_t *o
         VRT_COUNT("op.insert.existing");
         if (ok != k) VRT_COUNT("op.insert.existing.other-key-object");
         if (ov != x) VRT_COUNT("op.insert.existing.other-value-object");
+        if (ov == NULL) VRT_COUNT("op.insert.existing.stored-null-value");
+        if (x == NULL && ov != NULL) VRT_COUNT("op.insert.existing.offered-null-value");
         if (level >= 1) {
             /* stored pointers untouched, observed through an independent find with the other key object */
             check_find(v, (ko + 1) % no, "insert.existing.then-find", NULL);
@@ -307,7 +318,8 @@ static void do_insert(int v, int ko, int vo, int with_it, cstl_map_iterator_t *o
                       v, i.val, (void *)x);
         }
         M[v].blk = alloc_one("insert.new");
-        M[v].k = k; M[v].v = x; k->stored = 1; x->stored = 1;
+        M[v].k = k; M[v].v = x; k->stored = 1;
+        if (x != NULL) x->stored = 1; else VRT_COUNT("op.insert.null-value");
         Mn++;
         alloc_live("insert.new");
         VRT_COUNT("op.insert.new");
@@ -351,6 +363,7 @@ static void do_erase(int v, int po, int with_it, int level)
             if (cstl_map_iterator_eq(&i, END)) VRT_COUNT("op.erase.present.iter-detached");
         }
         alloc_freed("erase.present", v);
+        if (ov == NULL) VRT_COUNT("op.erase.present.null-value");
         model_remove(v);
         alloc_live("erase.present");
         VRT_COUNT("op.erase.present");
@@ -378,6 +391,7 @@ static void do_erase_it(int v, int po, int vo, int via_insert, int level)
     vrt_ev_begin();
     cstl_map_erase_iterator(map, &i);
     alloc_freed("erase_iterator", v);
+    if (M[v].v == NULL) VRT_COUNT("op.erase_iterator.null-value");
     model_remove(v);
     alloc_live("erase_iterator");
     if (!via_insert) VRT_COUNT("op.erase_iterator.from-find");
@@ -421,6 +435,7 @@ static void clear_cb(void *e, void *p)
     M[v].handed = 1;
     M[v].handed_k = k;
     clr_seen++;
+    if (M[v].v == NULL) VRT_COUNT("clear.handed-over.null-value");
     release_objs(v);            /* poison + free: the map must not look at them again */
     VRT_COUNT("clear.handed-over");
 }
@@ -461,7 +476,8 @@ static void do_clear(int nullcb, int level)
             M[v].blk = NULL;
         }
         if (M[v].k != NULL) {          /* NULL callback: the objects stay with the harness */
-            M[v].k->stored = 0; M[v].v->stored = 0;
+            M[v].k->stored = 0;
+            if (M[v].v != NULL) M[v].v->stored = 0;
             M[v].k = NULL; M[v].v = NULL;
             cnt++;
         }
@@ -569,7 +585,7 @@ static uint64_t sig_abstract(void)
     uint64_t h = 0xc08 + nv * 8 + no * 2 + desc;
     int v;
     for (v = 0; v < nv; v++)
-        h = vrt_mix(h, M[v].k ? 1 + M[v].k->obj + MAXO * M[v].v->obj : 0);
+        h = vrt_mix(h, M[v].k ? 1 + M[v].k->obj + 4 * (M[v].v ? M[v].v->obj : VO_NULL) : 0);
     return h;
 }
 static uint64_t st_sig(void)
@@ -594,7 +610,8 @@ static void audit_full(void)
         if (M[v].k != NULL) {
             VRT_CHECK(vrt_lib_block(M[v].blk, NULL) == M[v].blk, "map.audit.alloc.node-block-gone",
                       "the block allocated by the insert of value %d is no longer live", v);
-            VRT_CHECK(M[v].k->magic == KMAGIC && M[v].k->val == v && M[v].v->magic == VMAGIC && M[v].v->val == v,
+            VRT_CHECK(M[v].k->magic == KMAGIC && M[v].k->val == v
+                      && (M[v].v == NULL || (M[v].v->magic == VMAGIC && M[v].v->val == v)),
                       "map.audit.object-damaged", "stored key/value object of value %d was overwritten", v);
         }
     }
@@ -622,7 +639,7 @@ enum { K_INSERT = 1, K_FIND, K_ERASE, K_ERASE_IT, K_SIZE, K_CLEAR };
 static int apply_ex(uint32_t op, int level)
 {
     const int kind = OP_KIND(op), v = OP_V(op), ko = OP_KO(op), vo = OP_VO(op), fl = OP_FL(op);
-    if (v >= nv || ko >= no || vo >= no) return 0;
+    if (v >= nv || ko >= no || (vo >= no && vo != VO_NULL)) return 0;
     switch (kind) {
     case K_INSERT:
         do_insert(v, ko, vo, fl, NULL, level);
@@ -687,23 +704,29 @@ static void st_destroy(void)
 /* closure scopes                                                      */
 /* ------------------------------------------------------------------ */
 enum { AL_FULL = 0, AL_REDUCED = 1, AL_MINIMAL = 2 };
+/* In the closure alphabets the value object is tied to the key object; odd key values inserted with
+ * their last key object carry a NULL value pointer (so a share of the entries of every scope,
+ * including single-object scopes, has val == NULL, without enlarging the state space). */
+static int tied_vo(int v, int o, int nobjs) { return ((v & 1) && o == nobjs - 1) ? VO_NULL : o; }
+
 static int build_alphabet(int nvalues, int nobjs, int variant, uint32_t *al)
 {
     int n = 0, v, o;
     for (v = 0; v < nvalues; v++) {
         for (o = 0; o < nobjs; o++) {
+            const int tvo = tied_vo(v, o, nobjs);
             switch (variant) {
             case AL_FULL:
-                al[n++] = OP(K_INSERT, v, o, o, 0);
-                al[n++] = OP(K_INSERT, v, o, o, 1);
+                al[n++] = OP(K_INSERT, v, o, tvo, 0);
+                al[n++] = OP(K_INSERT, v, o, tvo, 1);
                 al[n++] = OP(K_FIND, v, o, 0, 0);
                 al[n++] = OP(K_ERASE, v, o, 0, 0);
                 al[n++] = OP(K_ERASE, v, o, 0, 1);
-                al[n++] = OP(K_ERASE_IT, v, o, o, 0);
-                al[n++] = OP(K_ERASE_IT, v, o, o, 1);
+                al[n++] = OP(K_ERASE_IT, v, o, tvo, 0);
+                al[n++] = OP(K_ERASE_IT, v, o, tvo, 1);
                 break;
             case AL_REDUCED:
-                al[n++] = OP(K_INSERT, v, o, o, 1);
+                al[n++] = OP(K_INSERT, v, o, tvo, 1);
                 if (o == nobjs - 1) {
                     al[n++] = OP(K_FIND, v, o, 0, 0);
                     al[n++] = OP(K_ERASE, v, o, 0, 1);
@@ -711,7 +734,7 @@ static int build_alphabet(int nvalues, int nobjs, int variant, uint32_t *al)
                 }
                 break;
             default:
-                al[n++] = OP(K_INSERT, v, o, o, 1);
+                al[n++] = OP(K_INSERT, v, o, tvo, 1);
                 if (o == 0) al[n++] = OP(K_ERASE, v, 0, 0, 1);
                 break;
             }
@@ -753,10 +776,11 @@ static void st_probe(int pi)
     /* fresh fill / erase under the model: the map must behave like a new one */
     for (j = 0; j < nv; j++) {
         v = pi ? nv - 1 - j : (j * 3 + 1) % nv;         /* descending resp. a stride order */
-        if (M[v].k == NULL) apply_ex(OP(K_INSERT, v, j % no, (j + 1) % no, j & 1), 2);
+        if (M[v].k == NULL) apply_ex(OP(K_INSERT, v, j % no, j % 3 == 1 ? VO_NULL : (j + 1) % no, j & 1), 2);
     }
     for (v = 0; v < nv; v++) if (M[v].k == NULL) apply_ex(OP(K_INSERT, v, 0, 0, 1), 2);
     apply_ex(OP(K_INSERT, nv / 2, no - 1, 0, 1), 2);      /* existing */
+    apply_ex(OP(K_INSERT, 1, 0, VO_NULL, 1), 2);          /* existing, NULL value offered */
     apply_ex(OP(K_ERASE, 0, no - 1, 0, 1), 2);
     apply_ex(OP(K_ERASE, 0, 0, 0, 1), 2);                 /* absent now */
     apply_ex(OP(K_ERASE_IT, nv - 1, 0, 0, 0), 2);
@@ -929,9 +953,10 @@ static void run_random(uint64_t idx)
     setup(nvv, noo, d, SIG_ABSTRACT);
     make_perm(&g, nvv, order);
     for (i = 0; i < nops; i++) {
-        int v, r, ko = (int)vrt_below(&g, noo), vo = (int)vrt_below(&g, noo), fl = (int)vrt_below(&g, 2);
+        int v, r, ko = (int)vrt_below(&g, noo), vo = (int)vrt_below(&g, noo + 1), fl = (int)vrt_below(&g, 2);
         const int level = (i % 64) == 63 ? 2 : 1;
         uint32_t op;
+        if (vo == noo) vo = VO_NULL;            /* one entry in noo+1 is offered a NULL value pointer */
         if (i % 384 == 0) {
             phase = (int)vrt_below(&g, 3);          /* 0 fill, 1 mixed, 2 drain */
             drain_rev = (int)vrt_below(&g, 2);
@@ -983,12 +1008,12 @@ static void run_random_clear(uint64_t idx)
     setup(nvv, noo, d, SIG_ABSTRACT);
     make_perm(&g, nvv, order);
     for (i = 0; i < fill; i++) {
-        const int ko = (int)vrt_below(&g, noo), vo = (int)vrt_below(&g, noo);
-        apply_ex(OP(K_INSERT, perm[i], ko, vo, i & 1), 0);
+        const int ko = (int)vrt_below(&g, noo), vr = (int)vrt_below(&g, noo + 1);
+        apply_ex(OP(K_INSERT, perm[i], ko, vr == noo ? VO_NULL : vr, i & 1), 0);
     }
     for (i = 0; i < fill / 8; i++) {
         const int v = (int)vrt_below(&g, nvv), er = vrt_chance(&g, 1, 2);
-        apply_ex(er ? OP(K_ERASE, v, 0, 0, 1) : OP(K_INSERT, v, noo - 1, 0, 1), 1);
+        apply_ex(er ? OP(K_ERASE, v, 0, 0, 1) : OP(K_INSERT, v, noo - 1, (v & 3) == 3 ? VO_NULL : 0, 1), 1);
     }
     audit_full();
     vrt_sig(1, vrt_mix(sig_abstract(), idx));
@@ -998,7 +1023,7 @@ static void run_random_clear(uint64_t idx)
     for (i = 0; i < 48; i++) {
         const int v = (int)vrt_below(&g, nvv < 64 ? nvv : 64);
         const int r = (int)vrt_below(&g, 4), ko = (int)vrt_below(&g, noo);
-        apply_ex(r < 2 ? OP(K_INSERT, v, ko, 0, 1) : r == 2 ? OP(K_ERASE, v, 0, 0, 1) : OP(K_ERASE_IT, v, 0, 0, 1), 1);
+        apply_ex(r < 2 ? OP(K_INSERT, v, ko, (v & 1) ? VO_NULL : 0, 1) : r == 2 ? OP(K_ERASE, v, 0, 0, 1) : OP(K_ERASE_IT, v, 0, 0, 1), 1);
     }
     audit_full();
     apply_ex(OP(K_CLEAR, 0, 0, 0, 0), 2);
@@ -1037,7 +1062,9 @@ static void wfini(void)
 }
 
 static const char *const required[] = {
-    "op.insert.new", "op.insert.existing.other-key-object", "op.insert.no-iterator", "op.insert.after-clear",
+    "op.insert.new", "op.insert.null-value", "clear.handed-over.null-value", "op.insert.existing.stored-null-value",
+    "op.find.present.null-value", "op.erase.present.null-value", "op.erase_iterator.null-value",
+    "op.insert.existing.other-key-object", "op.insert.no-iterator", "op.insert.after-clear",
     "op.insert.new.below-all", "op.insert.new.above-all", "op.insert.new.between",
     "op.find.present", "op.find.present.other-key-object", "op.find.absent",
     "op.erase.present", "op.erase.absent", "op.erase.no-iterator",
@@ -1048,6 +1075,7 @@ static const char *const required[] = {
 };
 static const char *const required_clear[] = {
     "probe.clear-then-reuse", "probe.clear-null-callback-then-reuse", "probe.clear-then-reuse.random",
+    "op.insert.null-value", "clear.handed-over.null-value",
     "clear.handed-over", "op.clear.callback.several", "op.insert.after-clear", "op.erase.present",
     "op.erase_iterator", "closure.states", "closure.scopes-closed", "closure.probes", "random.histories", NULL
 };
